@@ -288,6 +288,15 @@ func statusBytes(st *status.Status) string {
 // GoroutineGrace is how long goroutines of a finished, torn-down call get to exit.
 var GoroutineGrace = 3 * time.Second
 
+// CurrentPromptLimit is PromptLimit — until three cases of this process have hung or missed it: the run has
+// failed by then, and the remaining cases only need to fail cheaply.
+func CurrentPromptLimit() time.Duration {
+	if hangsSeen.Load() >= 3 {
+		return PromptLimit / 4
+	}
+	return PromptLimit
+}
+
 // PromptLimit is the wall-clock bound for "the client learns of the termination promptly".
 var PromptLimit = 2 * time.Second
 
@@ -334,10 +343,14 @@ func Watchdog(limit time.Duration, f func(ctx context.Context) string) string {
 		}()
 		ch <- f(ctx)
 	}()
+	if hangsSeen.Load() >= 3 && limit > 4*time.Second {
+		limit = 4 * time.Second // the run is already failing: keep the remaining hangs cheap
+	}
 	select {
 	case s := <-ch:
 		return s + " got.hang=0"
 	case <-time.After(limit):
+		hangsSeen.Add(1)
 		cancel()
 		select {
 		case s := <-ch:
@@ -381,6 +394,7 @@ func scriptFromKV(kv map[string]string) (*tScript, [][]byte, [][]byte, string, b
 
 // runE2ECase: real gRPC client -> GRPCProxy -> real pooled AdaptedClientConn -> scripted target.
 func runE2ECase(parent context.Context, kv map[string]string) []string {
+	pl := CurrentPromptLimit()
 	e, err := getEnv()
 	if err != nil {
 		return []string{"HARNESS=env"}
@@ -408,7 +422,7 @@ func runE2ECase(parent context.Context, kv map[string]string) []string {
 	if scen == "unary" {
 		var out []byte
 		in := reqs[0]
-		uctx, ucancel := context.WithTimeout(ctx, PromptLimit) // a unary call over local pipes that takes this long hangs
+		uctx, ucancel := context.WithTimeout(ctx, pl) // a unary call over local pipes that takes this long hangs
 		callErr = e.client.Invoke(uctx, method, &in, &out, grpc.ForceCodec(rawCodec{}))
 		if uctx.Err() != nil {
 			notPrompt.Store(true)
@@ -431,7 +445,7 @@ func runE2ECase(parent context.Context, kv map[string]string) []string {
 			case t := <-termAt:
 				select {
 				case <-finished:
-				case <-time.After(time.Until(t.Add(PromptLimit))):
+				case <-time.After(time.Until(t.Add(pl))):
 					notPrompt.Store(true)
 					cancel()
 					<-finished
@@ -484,7 +498,7 @@ func runE2ECase(parent context.Context, kv map[string]string) []string {
 				// the client neither sends nor closes any more: the target ends the call on its own
 				select {
 				case <-sc.done:
-				case <-time.After(PromptLimit):
+				case <-time.After(pl):
 				}
 				termAt <- time.Now()
 			case "cancel":
@@ -492,9 +506,9 @@ func runE2ECase(parent context.Context, kv map[string]string) []string {
 				case <-sc.started:
 					select {
 					case <-sc.gotN:
-					case <-time.After(PromptLimit):
+					case <-time.After(pl):
 					}
-				case <-time.After(PromptLimit):
+				case <-time.After(pl):
 				}
 				cancel()
 				termAt <- time.Now()
@@ -509,7 +523,7 @@ func runE2ECase(parent context.Context, kv map[string]string) []string {
 		callErr = nil
 	}
 	elapsed := time.Since(start)
-	if scen == "deadline" && elapsed > 150*time.Millisecond+PromptLimit {
+	if scen == "deadline" && elapsed > 150*time.Millisecond+pl {
 		notPrompt.Store(true)
 	}
 	// the target handler must end too (its context is cancelled when the call is over)
@@ -518,7 +532,7 @@ func runE2ECase(parent context.Context, kv map[string]string) []string {
 	case <-sc.started:
 		select {
 		case <-sc.done:
-		case <-time.After(PromptLimit):
+		case <-time.After(pl):
 			tdone = false
 		}
 	default: // the call ended before it reached the target
@@ -545,7 +559,12 @@ func runE2ECase(parent context.Context, kv map[string]string) []string {
 		"code=" + strconv.Itoa(int(cst.Code())),
 		"status=" + statusBytes(cst),
 		"half=" + b2(sc.half),
-		"prompt=" + b2(!notPrompt.Load()),
+		"prompt=" + func() string {
+			if notPrompt.Load() {
+				hangsSeen.Add(1)
+			}
+			return b2(!notPrompt.Load())
+		}(),
 		"tdone=" + b2(tdone),
 		"gor=" + strconv.Itoa(gor),
 		"gwhere=" + gwhere,
@@ -609,6 +628,7 @@ func RunReal(line string) string {
 // runDieCase: the target process goes away in the middle of a call (its server is stopped after it has read the
 // requests): a dedicated server and a dedicated pooled connection, the real Forward in between.
 func runDieCase(parent context.Context, kv map[string]string) []string {
+	pl := CurrentPromptLimit()
 	reqs := unHexList(kv["req"])
 	sc := newScript()
 	sc.mode, sc.nread = "block", len(reqs)
@@ -652,7 +672,7 @@ func runDieCase(parent context.Context, kv map[string]string) []string {
 		Target: &bridgedesc.Target{Name: "dying"}, Service: &bridgedesc.Service{Name: "verif.E2E"},
 		Method: bridgedesc.DummyMethod("verif.E2E", "Die"), Incoming: inc, Outgoing: conn,
 	})
-	prompt := time.Since(start) <= PromptLimit
+	prompt := time.Since(start) <= pl
 	cancel()
 	gor, gwhere := WaitBridgeGoroutinesGone(GoroutineGrace, preexisting)
 	sc.mu.Lock()
@@ -670,6 +690,7 @@ func runDieCase(parent context.Context, kv map[string]string) []string {
 }
 
 func runRealCase(parent context.Context, kv map[string]string) []string {
+	pl := CurrentPromptLimit()
 	if kv["sc"] == "die" {
 		return runDieCase(parent, kv)
 	}
@@ -696,13 +717,13 @@ func runRealCase(parent context.Context, kv map[string]string) []string {
 		Method:   bridgedesc.DummyMethod("verif.E2E", protoreflect.Name(name)),
 		Incoming: inc, Outgoing: e.tconn,
 	})
-	prompt := time.Since(start) <= PromptLimit
+	prompt := time.Since(start) <= pl
 	tdone := true
 	select {
 	case <-sc.started:
 		select {
 		case <-sc.done:
-		case <-time.After(PromptLimit):
+		case <-time.After(pl):
 			tdone = false
 		}
 	default:
